@@ -152,6 +152,11 @@ def build():
     one(r"if\s+rrset\.is_empty\(\)\s*\{\s*tree_node\.remove_rrset\(rrset\.rtype\(\)\)\.await\?;\s*\}\s*else\s*\{\s*tree_node\.update_rrset\(SharedRrset::new\(rrset\)\)\.await\?;\s*\}", de, "delete_record tail")
     defs.append(("updater_stores_plain_rrsets_only", "bool", b("make_zone_cut" not in us.split("mod tests")[0] and "make_cname" not in us.split("mod tests")[0])))
     ap = fn_body(us, "apply")
+    one(r"ZoneUpdate::BeginBatchDelete\(old_soa\)\s*=>\s*\{\s*self\.check_soa_serial\(&old_soa\)\.await\?;\s*let\s+diff\s*=\s*self\.write\.commit\(\)\.await\?;\s*self\.write\.reopen\(\)\.await\?;", ap, "BeginBatchDelete: serial check, then commit and reopen")
+    cs = fn_body(us, "check_soa_serial")
+    one(r"let\s+ZoneRecordData::Soa\(soa\)\s*=\s*soa\.data\(\)\s*else\s*\{\s*return\s+Err\(Error::NotSoaRecord\);\s*\};\s*let\s+zone_soa\s*=\s*self\.write\.root\(\)\.get_rrset\(Rtype::SOA\)\.await\?;\s*let\s+zone_serial\s*=\s*zone_soa\.as_ref\(\)\.and_then\(\|rrset\|\s*\{\s*match\s+rrset\.data\(\)\.first\(\)\s*\{\s*Some\(ZoneRecordData::Soa\(zone_soa\)\)\s*=>\s*\{\s*Some\(zone_soa\.serial\(\)\)\s*\}\s*_\s*=>\s*None\s*,\s*\}\s*\}\);\s*if\s+zone_serial\s*(!=|==)\s*Some\(soa\.serial\(\)\)\s*\{\s*return\s+Err\(Error::SoaMismatch\);\s*\}\s*Ok\(\(\)\)\s*$", cs, "check_soa_serial")
+    m = re.search(r"if\s+zone_serial\s*(!=|==)\s*Some\(soa\.serial\(\)\)", cs)
+    defs.append(("batch_delete_checks_serial", "bool", b(m.group(1) == "!=")))
     one(r"if\s+self\.state\s*==\s*ZoneUpdaterState::Finished\s*\{\s*return\s+Err\(Error::Finished\);\s*\}", ap, "apply after Finished")
     # ---- parsed.rs
     ps = strip_comments(read("src/zonetree/parsed.rs"))
